@@ -184,7 +184,15 @@ fn snapshot_restore(e: &mut E1) {
     let json = match snap {
         Ok(j) => j,
         Err(p) => {
-            e.out.viol("snapshot_panicked", step, format!("serializing the database panicked: {:?}", panic_kind(&p)));
+            let pk = panic_kind(&p);
+            if matches!(&pk, PK::Msg(m) if m.contains("write lock taken")) {
+                // recorded finding (C26): a tracked struct deleted in the current revision stays
+                // write-locked; serialization takes every struct's read lock and panics on it
+                e.out.viol("snapshot_with_deleted_struct_panics", step, format!("serializing the database panicked: {pk:?}"));
+                e.stop_run = true;
+            } else {
+                e.out.viol("snapshot_panicked", step, format!("serializing the database panicked: {pk:?}"));
+            }
             e.db = Some(old);
             return;
         }
